@@ -37,6 +37,8 @@ from ``vgi_rpc/logging_utils.py`` (``VgiAccessLogFormatter.format``)
   * ``sentinelBase`` / ``sentinelCond``   keys of the sentinel dict literal / keys stored afterwards;
   * ``shedOrder``      the order in which ``request_data`` and ``claims`` are shed;
   * ``sentinelErrFallback``   the literal used when an error record reaches the sentinel without a usable message;
+  * ``refusedEmits``   ``_run_stream_exchange_sync`` enters a telemetry shell / calls ``_emit_access_log`` before
+                       ``_unpack_and_recover_state`` has returned, or inside an ``except`` handler (a refused continuation is logged);
   * ``jsonAsciiOnly``  no ``json.dumps`` reached by ``VgiJsonFormatter.format`` / ``VgiAccessLogFormatter.format`` (directly, through
                        ``_encoded_len`` or a module-level helper) passes ``ensure_ascii=False``.
 
@@ -645,6 +647,28 @@ def sid_shape() -> dict[str, bool]:
     return {"miss": on_miss, "hit": on_hit, "init": set_line is not None and set_line < with_line}
 
 
+def refused_shape() -> bool:
+    """``_run_stream_exchange_sync``: does a continuation the worker *refuses* (cursor / call token that does not open, is
+    expired, belongs to another method, names an unresolvable call — ``_unpack_and_recover_state`` raises) get an access-log
+    record?  It does when a telemetry shell / ``_emit_access_log`` is entered before that call has returned or inside an
+    ``except`` handler of the function (the stream id is not known at that point).  True = a record is emitted."""
+    st = _parse("vgi_rpc/http/server/_app_stream.py")
+    f = _func(st, "_run_stream_exchange_sync")
+    unpack = [c.lineno for c in ast.walk(f) if isinstance(c, ast.Call) and isinstance(c.func, ast.Name) and c.func.id == "_unpack_and_recover_state"]
+    if len(unpack) != 1:
+        raise Unsupported(f"_run_stream_exchange_sync: {len(unpack)} calls of _unpack_and_recover_state")
+
+    def emitters(node: ast.AST) -> list[ast.Call]:
+        return [c for c in ast.walk(node) if isinstance(c, ast.Call) and isinstance(c.func, ast.Name)
+                and c.func.id in ("_dispatch_telemetry", "_emit_access_log")]
+
+    early = [c for c in emitters(f) if c.lineno <= unpack[0]]
+    in_handlers = [c for h in ast.walk(f) if isinstance(h, ast.ExceptHandler) for c in emitters(h)]
+    if not emitters(f):
+        raise Unsupported("_run_stream_exchange_sync: no telemetry shell at all")
+    return bool(early or in_handlers)
+
+
 def json_ascii_only() -> bool:
     """Every ``json.dumps`` the two formatters reach (directly or through a module-level helper they call) escapes non-ASCII:
     no ``ensure_ascii=False``.  With ASCII-only output a record can only ever be one physical line, whatever a reader takes
@@ -799,6 +823,10 @@ continuation, exchange turn and cancel) when the call-state cache hits / misses 
 def sidAtInit : Bool := {"true" if sd["init"] else "false"}
 def sidOnHit : Bool := {"true" if sd["hit"] else "false"}
 def sidOnMiss : Bool := {"true" if sd["miss"] else "false"}
+
+/-- `_run_stream_exchange_sync` emits a record for a continuation it refuses before any dispatch shell is entered (bad /
+expired / foreign cursor or call token, wrong method): the stream id is not known then -/
+def refusedEmits : Bool := {"true" if refused_shape() else "false"}
 
 /-! ## vgi_rpc/logging_utils.py — VgiAccessLogFormatter.format -/
 
